@@ -166,7 +166,7 @@ def run(ctx):
                                {"kind": "engine", "mode": MODE, "grammar": gr, "source": [ord(c) for c in s], "source_repr": repr(s),
                                 "offset": i, "tree_failures": bad[:5], "implementation": "", "model": "", "query": "lparse"},
                                key="engine:" + lib.digest([gr, [ord(c) for c in s], i]))
-    gcases = ec.gen_cases(ctx.seed + 7777, ctx.budget(60, 600), 8)
+    gcases = ec.gen_cases(ctx.seed + 7777, ctx.budget(200, 900), 8)
     vjobs = []
     for gr, sources in CASE_CORPUS:
         cls_w, rules_w = G.build(P, gr)
